@@ -1145,17 +1145,25 @@ package saml
 //@    return (knownBinding(b) && (SchemeOf(l) == "http" || SchemeOf(l) == "https")) || (!knownBinding(b) && l == "") }
 //@ contract checkEndpointLocation
 //@ ensures[C14,C15] filtered: err == nil ==> locationOK(binding, result) && (knownBinding(binding) ==> result == location)
+//@ ensures[C14,C15] empty_on_error: err != nil ==> result == ""
 //@ contract (*Endpoint).UnmarshalXML
 //@ requires[cfg] d: d != nil
 //@ -- each location is checked, and replaced, by its own filtered value (C15: parsing preserves http(s) endpoints)
 //@ assert@call[C14,C15] checkEndpointLocation #each (binding string, location string) checks_own_locations:
 //@    binding == m.Binding && (location == m.Location || location == m.ResponseLocation)
+//@ -- ... and each field is replaced by the filtered form of ITS OWN value: under a binding whose locations are URLs, what
+//@ -- is stored is what the field held (C15: an http(s) location survives parsing, in the field it was read into)
+//@ assert@store[C14,C15] Location #each (stored string) location_keeps_its_value: stored != "" && knownBinding(m.Binding) ==> stored == m.Location
+//@ assert@store[C14,C15] ResponseLocation #each (stored string) response_location_keeps_its_value: stored != "" && knownBinding(m.Binding) ==> stored == m.ResponseLocation
 //@ ensures[C14] location: err == nil ==> locationOK(m.Binding, m.Location)
 //@ ensures[C14] response_location: err == nil && m.ResponseLocation != "" ==> locationOK(m.Binding, m.ResponseLocation)
 //@ contract (*IndexedEndpoint).UnmarshalXML
 //@ requires[cfg] d: d != nil
 //@ assert@call[C14,C15] checkEndpointLocation #each (binding string, location string) checks_own_locations:
 //@    binding == m.Binding && (location == m.Location || (m.ResponseLocation != nil && location == *m.ResponseLocation))
+//@ assert@store[C14,C15] Location #each (stored string) location_keeps_its_value: stored != "" && knownBinding(m.Binding) ==> stored == m.Location
+//@ assert@store[C14,C15] ResponseLocation #each (stored *string) response_location_keeps_its_value:
+//@    stored != nil && knownBinding(m.Binding) ==> m.ResponseLocation != nil && *stored == *m.ResponseLocation
 //@ ensures[C14] location: err == nil ==> locationOK(m.Binding, m.Location)
 //@ ensures[C14] response_location: err == nil && m.ResponseLocation != nil ==> locationOK(m.Binding, *m.ResponseLocation) && *m.ResponseLocation != ""
 
